@@ -238,3 +238,44 @@ func verifLemma_C29_relation_members() {
 	verifrt.Assert(got[2].ID == AreaIDFromOSMRelationID(7).FeatureID() && got[2].Role == "c", "multipolygon-member-is-its-area")
 	verifrt.Assert(got[3].ID == FromOSMNodeID(1) && got[3].Role == "d", "node-member-is-its-point")
 }
+
+// C29 (bounded shape): a closed way becomes a path without the way's tags (only its path
+// geometry tag) followed by an area that carries the way's tags and consists of that one
+// path; an open way becomes a path over its nodes; nothing else is emitted. Tag keys
+// are not compared (the OSM key mapping is a package-level Go map, unknown to the engine).
+func verifLemma_C29_ways() {
+	src := &MemoryOSMSource{
+		Ways: []osm.Way{
+			{ID: 5, Nodes: []osm.NodeID{1, 2, 3, 1}, Tags: osm.Tags{{Key: "name", Value: "x"}}},
+			{ID: 6, Nodes: []osm.NodeID{1, 2}},
+		},
+	}
+	fs, err := NewFeatureSourceFromPBF(src, &BuildOptions{Cores: 1}, nil)
+	verifrt.Assert(err == nil, "source-built")
+	n := 0
+	emit := func(f Feature, g int) error {
+		switch n {
+		case 0:
+			p, ok := f.(*GenericFeature)
+			verifrt.Assert(ok && p.ID == FromOSMWayID(5), "closed-way-gives-a-path-first")
+			verifrt.Assert(len(p.Tags) == 1 && p.Tags[0].Key == b6.PathTag, "that-path-keeps-no-way-tags")
+			verifrt.Assert(p.Tags.GeometryLen() == 4 && p.Tags.Reference(0).Source() == FromOSMNodeID(1) && p.Tags.Reference(1).Source() == FromOSMNodeID(2) && p.Tags.Reference(2).Source() == FromOSMNodeID(3) && p.Tags.Reference(3).Source() == FromOSMNodeID(1), "path-over-the-way-nodes-in-order")
+		case 1:
+			a, ok := f.(*AreaFeature)
+			verifrt.Assert(ok && a.AreaID == AreaIDFromOSMWayID(5), "closed-way-gives-an-area-second")
+			verifrt.Assert(len(a.Tags) == 1 && a.Tags[0].Value.String() == "x", "the-area-carries-the-way-tags")
+			ids, isIDs := a.PathIDs(0)
+			verifrt.Assert(a.Len() == 1 && isIDs && len(ids) == 1 && ids[0] == FromOSMWayID(5), "the-area-is-that-one-path")
+		case 2:
+			p, ok := f.(*GenericFeature)
+			verifrt.Assert(ok && p.ID == FromOSMWayID(6), "open-way-gives-a-path")
+			verifrt.Assert(len(p.Tags) == 1 && p.Tags[0].Key == b6.PathTag, "that-path-has-its-geometry-tag")
+			verifrt.Assert(p.Tags.GeometryLen() == 2 && p.Tags.Reference(0).Source() == FromOSMNodeID(1) && p.Tags.Reference(1).Source() == FromOSMNodeID(2), "open-path-over-its-nodes")
+		}
+		n++
+		return nil
+	}
+	err = fs.Read(ReadOptions{SkipPoints: true, SkipRelations: true, Goroutines: 1}, emit, nil)
+	verifrt.Assert(err == nil, "read-succeeds")
+	verifrt.Assert(n == 3, "three-features")
+}
